@@ -754,6 +754,112 @@ func fdaDialFailScenario(x *fdaCtx) {
 	}
 }
 
+// fdaFaultPoll wraps a real poller and refuses the registration for reading (the only way `connection.init` can fail
+// after `initNetFD`): the kernel would answer ENOMEM/ENOSPC from epoll_ctl(ADD) at this point.
+type fdaFaultPoll struct {
+	Poll
+	refuse int32
+}
+
+func (p *fdaFaultPoll) Alloc() *FDOperator {
+	op := p.Poll.Alloc()
+	op.poll = p
+	return op
+}
+
+func (p *fdaFaultPoll) Control(op *FDOperator, ev PollEvent) error {
+	if ev == PollReadable && atomic.LoadInt32(&p.refuse) == 1 {
+		return syscall.ENOMEM
+	}
+	return p.Poll.Control(op, ev)
+}
+
+// a dial whose connect succeeds and whose registration with the poller fails: `register` closes the connection
+// (finalizer -> netFD.Close), the dial returns the error; the dialed descriptor is closed exactly once
+func fdaDialRegisterFailScenario(x *fdaCtx) {
+	x.usePollManager()
+	x.know("prepare_closes", false)
+	x.know("conn_detach", false)
+	x.know("conn_viaServer", false)
+	x.know("register_ok", false)
+	// every poller of the pool refuses read registrations from now on
+	var wrapped []*fdaFaultPoll
+	orig := append([]Poll(nil), pollmanager.polls...)
+	for i, p := range pollmanager.polls {
+		w := &fdaFaultPoll{Poll: p, refuse: 1}
+		wrapped = append(wrapped, w)
+		pollmanager.polls[i] = w
+	}
+	pollmanager.balance.Rebalance(pollmanager.polls)
+	defer func() {
+		copy(pollmanager.polls, orig)
+		pollmanager.balance.Rebalance(pollmanager.polls)
+	}()
+	// listeners owned by the harness (raw system calls, announced)
+	lfd, err := syscall.Socket(syscall.AF_INET, syscall.SOCK_STREAM, 0)
+	if err != nil {
+		x.failf("socket: %v", err)
+		return
+	}
+	fdaOwn(lfd)
+	defer fdaClose(lfd)
+	if err := syscall.Bind(lfd, &syscall.SockaddrInet4{Addr: [4]byte{127, 0, 0, 1}}); err != nil {
+		x.failf("bind: %v", err)
+		return
+	}
+	syscall.Listen(lfd, 16)
+	sa, _ := syscall.Getsockname(lfd)
+	port := sa.(*syscall.SockaddrInet4).Port
+	upath := x.tmpSock()
+	defer os.Remove(upath)
+	ufd, err := syscall.Socket(syscall.AF_UNIX, syscall.SOCK_STREAM, 0)
+	if err != nil {
+		x.failf("socket: %v", err)
+		return
+	}
+	fdaOwn(ufd)
+	defer fdaClose(ufd)
+	if err := syscall.Bind(ufd, &syscall.SockaddrUnix{Name: upath}); err != nil {
+		x.failf("bind unix: %v", err)
+		return
+	}
+	syscall.Listen(ufd, 16)
+	refused := 0
+	for i := 0; i < 6; i++ {
+		network, addr := "tcp", fmt.Sprintf("127.0.0.1:%d", port)
+		if i%2 == 1 {
+			network, addr = "unix", upath
+			x.kind("dialUnix 3")
+		} else {
+			x.kind("dialTCP 3")
+		}
+		c, err := DialConnection(network, addr, 2*time.Second)
+		if err == nil {
+			x.failf("dial succeeded although the registration was refused")
+			c.Close()
+		} else {
+			refused++
+		}
+		// give the churning goroutine time to take the freed number before anything else happens
+		time.Sleep(time.Duration(x.rnd.Intn(3)) * time.Millisecond)
+	}
+	if refused == 0 {
+		x.failf("no dial was refused")
+	}
+	// drain the accept queues (the peers of the dialed sockets), announced
+	for _, l := range []int{lfd, ufd} {
+		syscall.SetNonblock(l, true)
+		for {
+			nfd, _, err := syscall.Accept(l)
+			if err != nil {
+				break
+			}
+			fdaOwn(nfd)
+			fdaClose(nfd)
+		}
+	}
+}
+
 // a private poller: open, run, trigger, close
 func fdaPollerScenario(x *fdaCtx) {
 	for i := 0; i < 3; i++ {
@@ -935,6 +1041,7 @@ func fdaScenarios() []fdaScenario {
 		{name: "convert-listener-tcp", run: fdaListenerScenario("tcp", true)},
 		{name: "convert-listener-unix", run: fdaListenerScenario("unix", true)},
 		{name: "dial-fails", run: fdaDialFailScenario},
+		{name: "dial-register-fails", run: fdaDialRegisterFailScenario},
 		{name: "poller", run: fdaPollerScenario},
 		{name: "rlimit", run: fdaRlimitScenario, noChurn: true},
 		{name: "rlimit-create-listener", run: fdaRlimitListenerScenario, noChurn: true, expectLeft: 1},
